@@ -38,7 +38,21 @@ class C05(Check):
                     {"op": "data", "obj": 0, "kind": "int", "assoc": "VERTEX", "vals": [1, 2, 3], "name": "b", "short": 0, "pg": "pg2"},
                     {"op": "pg_add", "obj": 0, "data": [0], "name": "pg2"},
                     {"op": "remove", "who": 1, "via": via, "ws": 0, "protect": False, "noref": False}]
-        cfg = {"weights": weights, "max_ops": 25, "prefixes": [[], [], [], [], shared("ws"), shared("parent")]}
+        # ... a protected entity that was loaded from the file (flags come back from a file as 0 / 1) ...
+        protected = [{"op": "object", "cls": "Points", "parent": 0, "name": "p", "geom": {"n": 3, "g": [1, 2, 3, 4]}, "deferred": False},
+                     {"op": "data", "obj": 0, "kind": "float", "assoc": "VERTEX", "vals": [1, 2, 3], "name": "a", "short": 0},
+                     {"op": "flag", "who": 0, "flag": "allow_delete", "value": False},
+                     {"op": "reopen", "same": False},
+                     {"op": "remove", "who": 0, "via": "ws", "ws": 0, "protect": False, "noref": False}]
+
+        # ... and cell data that joined a group of vertex data by name, removed either way
+        def mixed(via):
+            return [{"op": "object", "cls": "Curve", "parent": 0, "name": "c", "geom": {"n": 4, "g": [1, 2, 3, 4, 5, 6]}, "deferred": False},
+                    {"op": "data", "obj": 0, "kind": "float", "assoc": "VERTEX", "vals": [1, 2, 3, 4], "name": "a", "short": 0, "pg": "pg1"},
+                    {"op": "data", "obj": 0, "kind": "float", "assoc": "CELL", "vals": [1, 2, 3], "name": "b", "short": 0, "pg": "pg1"},
+                    {"op": "remove", "who": 2, "via": via, "ws": 0, "protect": False, "noref": False}]
+        cfg = {"weights": weights, "max_ops": 25,
+               "prefixes": [[], [], [], [], [], shared("ws"), shared("parent"), protected, mixed("ws"), mixed("parent")]}
         if tier == "thorough":
             cfg.update({"max_ops": 40, "object_classes": tree.F.OBJECT_CLASSES,
                         "group_classes": tree.F.GROUP_CLASSES})
